@@ -750,6 +750,8 @@ class FTPFS(FS):
                             raise errors.DirectoryExists(path)
                         else:
                             if self.exists(path):
+                                if recreate:
+                                    raise errors.DirectoryExpected(path)
                                 raise errors.DirectoryExists(path)
                     raise errors.ResourceNotFound(path)
         return self.opendir(path)
@@ -855,9 +857,15 @@ class FTPFS(FS):
         _path = self.validatepath(path)
         with self._lock:
             with ftp_errors(self, path):
-                self.ftp.storbinary(
-                    str("STOR ") + _encode(_path, self.ftp.encoding), file
-                )
+                try:
+                    self.ftp.storbinary(
+                        str("STOR ") + _encode(_path, self.ftp.encoding), file
+                    )
+                except error_perm as error:
+                    code, _ = _parse_ftp_error(error)
+                    if code == "550" and self.isdir(path):
+                        raise errors.FileExpected(path)
+                    raise
 
     def writebytes(self, path, contents):
         # type: (Text, ByteString) -> None
